@@ -367,6 +367,7 @@ Definition tree_step_core (s : tstate) (o : top) (r : tres) : verdict * tstate :
                 if t_id m =? t_id n
                 then (* the destination name resolves to the source itself (same name, another spelling of it, or its
                         alias): a case-preserving tree takes the new spelling *)
+                  if is_nospace r then (VOk, s) else   (* the new spelling is written before the old entry is freed *)
                   (match r with ROk => VOk | _ => VBad 156 end,
                    match r with ROk => move_node s (t_id n) dd dfinal alias | _ => s end)
                 else (expect_err r EAlreadyExists 155, s)
